@@ -45,7 +45,7 @@ package bulkhead
 //@   assume ret(ite(ctx == nil, background(), ctx).Err, 1) != nil
 //@   ensures [C06.acquirewait] (result == nil) ==> tokens(b.semaphore) == old(tokens(b.semaphore)) + 1
 //@   ensures [C06.acquirewait.refused] (result != nil) ==> tokens(b.semaphore) == old(tokens(b.semaphore))
-//@   ensures [C06.acquirewait.errors] result != nil ==> result == ErrFull || ncalls(ite(ctx == nil, background(), ctx).Err) == 1
+//@   ensures [C06.acquirewait.errors+C08.bulkhead.wait_reports_cancellation] result != nil ==> result == ErrFull || ncalls(ite(ctx == nil, background(), ctx).Err) == 1
 //@   havoc
 //@   modifies tokens(b.semaphore), calls(ctx.Done), calls(ctx.Err), calls(background().Done), calls(background().Err), canceled(ctx), canceled(background())
 
@@ -60,7 +60,7 @@ package bulkhead
 
 //@ func (*executor).PostExecute
 //@   requires e != nil && e.bulkhead != nil
-//@   ensures [C06.post.release_once] tokens(e.semaphore) == old(tokens(e.semaphore)) - 1 && result_0 == result
+//@   ensures [C06.post.release_once+C01.bulkhead.releases_whatever_comes_back] tokens(e.semaphore) == old(tokens(e.semaphore)) - 1 && result_0 == result
 //@   modifies tokens(e.semaphore)
 
 // Through the real template: permits are conserved on every path and the function runs only with a permit.
